@@ -108,6 +108,7 @@ async fn exec_receiver(plan: &Value, ctx: &mut Ctx) {
     c.chunk_size = 8196;
     // what has been delivered to the server since the last Final chunk: (message index, seq, request id)
     let mut group: Vec<(usize, u32, u32)> = Vec::new();
+    let mut group_chan: Vec<u32> = Vec::new();
     let mut max_accepted_seq: u32 = c.next_seq - 1;
     // every chunk ever produced: message index -> (request id, chunks)
     let mut produced: Vec<(u32, Vec<Vec<u8>>)> = Vec::new();
@@ -136,6 +137,8 @@ async fn exec_receiver(plan: &Value, ctx: &mut Ctx) {
                         let mi = produced.len();
                         let mut order: Vec<usize> = (0..chunks.len()).collect();
                         let mut patch_req: Option<usize> = None;
+                        let mut patch_first_req_zero = false;
+                        let mut patch_chan: Option<usize> = None;
                         match s["mitm"].as_str().unwrap_or("none") {
                             "swap" if chunks.len() >= 2 => {
                                 let a = (s["a"].as_u64().unwrap_or(0) as usize) % chunks.len();
@@ -158,6 +161,16 @@ async fn exec_receiver(plan: &Value, ctx: &mut Ctx) {
                                 ctx.fault("mixed_request_ids");
                                 patch_req = Some((s["a"].as_u64().unwrap_or(0) as usize % (chunks.len() - 1)) + 1);
                             }
+                            "patch_req_zero" if chunks.len() >= 2 => {
+                                // ... or request id 0 in the first chunk and the real id in the others
+                                ctx.fault("mixed_request_ids");
+                                patch_first_req_zero = true;
+                            }
+                            "patch_chan" if chunks.len() >= 2 => {
+                                // a later chunk that names another secure channel
+                                ctx.fault("foreign_channel_id_in_later_chunk");
+                                patch_chan = Some((s["a"].as_u64().unwrap_or(0) as usize % (chunks.len() - 1)) + 1);
+                            }
                             "hold" => {
                                 // produced (consumes sequence numbers) but not delivered now: replayed later or never
                                 order.clear();
@@ -170,6 +183,13 @@ async fn exec_receiver(plan: &Value, ctx: &mut Ctx) {
                             if patch_req == Some(k) && bytes.len() >= 24 {
                                 let other = (id + 7777).to_le_bytes();
                                 bytes[20..24].copy_from_slice(&other);
+                            }
+                            if patch_first_req_zero && k == 0 && bytes.len() >= 24 {
+                                bytes[20..24].copy_from_slice(&0u32.to_le_bytes());
+                            }
+                            if patch_chan == Some(k) && bytes.len() >= 24 {
+                                let cid = u32::from_le_bytes([bytes[8], bytes[9], bytes[10], bytes[11]]);
+                                bytes[8..12].copy_from_slice(&(cid.wrapping_add(1)).to_le_bytes());
                             }
                             deliver.push((mi, bytes));
                         }
@@ -203,13 +223,15 @@ async fn exec_receiver(plan: &Value, ctx: &mut Ctx) {
                 break 'outer;
             }
             group.push((mi, seq, req));
+            group_chan.push(u32::from_le_bytes([bytes[8], bytes[9], bytes[10], bytes[11]]));
             if fin == b'F' {
                 // a message boundary as the server sees it: what does the model say about this group?
                 let consecutive = group.windows(2).all(|w| w[1].1 == w[0].1.wrapping_add(1));
                 let one_req = group.iter().all(|g| g.2 == group[0].2);
                 let fresh = group[0].1 > max_accepted_seq;
                 let one_msg = group.iter().all(|g| g.0 == group[0].0) && group.len() == produced[group[0].0].1.len();
-                let acceptable = consecutive && one_req && fresh;
+                let one_chan = group_chan.iter().all(|x| *x == c.chan.secure_channel_id());
+                let acceptable = consecutive && one_req && fresh && one_chan;
                 let first_req = group[0].2;
                 // did the server answer it?
                 let r = c.recv_for(first_req, Duration::from_millis(50)).await;
@@ -217,7 +239,7 @@ async fn exec_receiver(plan: &Value, ctx: &mut Ctx) {
                 let replayed = accepted_msgs.contains(&group[0].0) && one_msg;
                 if answered {
                     if !acceptable {
-                        let why = if !consecutive { "non-consecutive sequence numbers" } else if !one_req { "several request ids" } else { "sequence numbers not greater than an accepted one" };
+                        let why = if !consecutive { "non-consecutive sequence numbers" } else if !one_req { "several request ids" } else if !one_chan { "a chunk of another secure channel" } else { "sequence numbers not greater than an accepted one" };
                         ctx.violate(
                             "C12",
                             if replayed { "replayed-message-accepted" } else { "invalid-chunk-sequence-accepted" },
@@ -234,6 +256,7 @@ async fn exec_receiver(plan: &Value, ctx: &mut Ctx) {
                 }
                 ctx.log(&format!("{}:{}ch>{}{}", op, group.len().min(9), if acceptable { "" } else { "!" }, l2::recv_kind(&r)), "");
                 group.clear();
+                group_chan.clear();
                 if !c.is_open() {
                     break 'outer;
                 }
@@ -257,7 +280,7 @@ impl Scenario for C12 {
             real: vec!["client SendBuffer", "server MessageWriter", "Chunker::encode / validate_chunks", "server TcpTransport reader loop, process_chunk, last_received_sequence_number", "MessageHandler (Read)"],
             stubbed: vec!["TCP socket", "client-side receiver (exercised by C35's world)"],
             assumptions: vec!["security policy None (sequence headers readable by the MITM stage)"],
-            fault_kinds: vec!["reorder", "duplicate", "drop", "delay", "late_delivery", "replay_accepted_message", "mixed_request_ids"],
+            fault_kinds: vec!["reorder", "duplicate", "drop", "delay", "late_delivery", "replay_accepted_message", "mixed_request_ids", "foreign_channel_id_in_later_chunk"],
         }
     }
     fn runs(&self, tier: Tier) -> u64 {
@@ -280,7 +303,7 @@ impl Scenario for C12 {
         for _ in 0..n {
             match rng.below(10) {
                 0..=5 => {
-                    let mitm = *rng.pick(&["none", "none", "none", "none", "swap", "dup", "drop", "hold", "patch_req"]);
+                    let mitm = *rng.pick(&["none", "none", "none", "none", "swap", "dup", "drop", "hold", "patch_req", "patch_req_zero", "patch_chan"]);
                     steps.push(json!({"op": "send", "size": *rng.pick(&[100usize, 300, 9000, 17000, 26000]), "mitm": mitm, "a": rng.below(4)}));
                 }
                 6..=8 => steps.push(json!({"op": "replay", "which": rng.below(8)})),
